@@ -840,7 +840,9 @@ func (f *Frame) builtinAppend(in ssa.Instruction, c *ssa.CallCommon, guard strin
 	if single != "" {
 		inplace = fmt.Sprintf("(store %s %s %s)", sarr, end, single)
 		fa := e.fresh("ap_new", "(Array Int "+es+")")
-		e.assert(fmt.Sprintf("(forall ((k Int)) (! (=> (and (<= (s-off %s) k) (< k %s)) (= (select %s k) (select %s k))) :pattern ((select %s k))))", s.T, end, fa, sarr, fa))
+		// two alternative triggers: a read of the new array, or a read of the old one (so that facts known about an
+		// old element carry over without a term of the new array having to exist first)
+		e.assert(fmt.Sprintf("(forall ((k Int)) (! (=> (and (<= (s-off %s) k) (< k %s)) (= (select %s k) (select %s k))) :pattern ((select %s k)) :pattern ((select %s k))))", s.T, end, fa, sarr, fa, sarr))
 		e.assert(fmt.Sprintf("(= (select %s %s) %s)", fa, end, single))
 		fresh = fa
 	} else {
